@@ -5,7 +5,7 @@
 //! (forced-mask builds) as a cross-check of the hook itself.
 
 use crate::adapter::{self, Outcome, Recorded};
-use crate::fw::{flag, Ctx, Report};
+use crate::fw::{flag, Ctx, Report, Tier};
 use crate::job::{Job, GEN_COUNT};
 use crate::pool;
 use crate::stats::Stats;
@@ -17,7 +17,7 @@ use oracle::rng::{mix, Rng};
 use serde_json::json;
 
 pub const ID: &str = "C11";
-pub const FAMS: [&str; 5] = ["cell", "small-random", "witness", "forced", "tiny"];
+pub const FAMS: [&str; 6] = ["cell", "small-random", "witness", "forced", "tiny", "crafted-extremes"];
 pub const KF: &str = "KF-C11-1";
 pub const KF_WHAT: &str = "site=src/placement.rs:place_on_matrix column run/window penalty terms are taken from the transpose of the UN-masked placement (same constant for all eight candidates), so the emitted mask is not always minimal under the documented penalty";
 
@@ -73,6 +73,21 @@ pub fn jobs(ctx: &Ctx) -> Vec<Job> {
     for w in WITNESSES {
         k += 1;
         jobs.push(Job { fam: FAMS[2], class: 2, mode: Some(2), level: Some(1), version: None, mask: None, len: w.len(), payload: Some(w.to_vec()), seed: k, ..Default::default() });
+    }
+    // crafted: the data area equals a mask pattern (one candidate uniformly light), its complement, finder
+    // look-alike rows/columns, stripes ...: penalties at their extremes (far above 65535 for big versions),
+    // huge gaps between candidates, and candidates that tie exactly
+    let crafted_versions: Vec<usize> = ctx.tier.pick(vec![1, 2, 3, 5, 7, 10, 14, 20, 27, 32, 34, 36, 38, 40], (1..=40).collect());
+    for &v in &crafted_versions {
+        for level in 0..4usize {
+            for t in 0..crate::craft::TARGET_COUNT {
+                k += 1;
+                if ctx.tier == Tier::Quick && v > 10 && (v + level + t) % 2 != 0 {
+                    continue;
+                }
+                jobs.push(Job::crafted(FAMS[5], crate::job::CRAFT_TARGET, t, v, level, None, mix(ctx.seed, k)));
+            }
+        }
     }
     // forced masks always override
     for v in [1usize, 5, 13, 27, 40] {
@@ -245,6 +260,13 @@ pub fn observe(ctx: &Ctx, st: &mut Stats, job: &Job, idx: usize) {
         }
     }
     st.count("candidate_penalties_computed", 8);
+    for x in &t {
+        st.max("max_documented_penalty_seen", x.total_floor() as u64);
+    }
+    if job.fam == FAMS[5] {
+        st.count("crafted_extreme_builds", 1);
+        st.reach("crafted_targets", job.aux[0] as u64);
+    }
     let min_ok = argmin(&d_floor).contains(&emitted) || argmin(&d_exact).contains(&emitted);
     // diagnostics: what is the recorded ranking score equal to?
     let (ucr, ucw) = penalty::column_terms(&placed, v);
@@ -300,7 +322,7 @@ pub fn run(ctx: &Ctx) -> Report {
     let st = pool::run(&jobs, ctx.remaining(), |st, job, i| observe(ctx, st, job, i));
     let mut rep = Report::new(
         st,
-        "jobs = all 160 (version, level) cells x payloads {capacity-filling, empty, constant, random} + random small inputs (v<=10, automatic version/mode) + 12,000 (thorough 300,000) tiny inputs for versions 1-3 (coarse dark-ratio steps: the bands of the dark-ratio term and ties are hit there) + the three witness payloads of KF-C11-1 + forced-mask builds; each automatic build is run with the candidate recorder hook armed: the eight recorded candidates must be eight distinct masks over identical placed codewords (checked by un-masking with the ISO conditions) and must equal the forced-mask builds seen through the public API; an independent scan computes the documented penalty (40 per 1011101 window, N-2 per run >=5 inside the encoding region over rows and columns of the candidate, 3 per 2x2 block, 10 per 5% dark-ratio step; both readings of an exact 5% boundary accepted) and the emitted mask must be in the argmin; ties and order-equivalent ranking scores are not alarms; a miss is classified against the predicate of known finding KF-C11-1 (emitted mask in argmin when column terms are frozen at the un-masked placement); distinct key = (options, len, payload hash); every automatic build non-trivial",
+        "jobs = all 160 (version, level) cells x payloads {capacity-filling, empty, constant, random} + random small inputs (v<=10, automatic version/mode) + 12,000 (thorough 300,000) tiny inputs for versions 1-3 (coarse dark-ratio steps: the bands of the dark-ratio term and ties are hit there) + the three witness payloads of KF-C11-1 + forced-mask builds + crafted byte payloads whose data area equals each mask pattern / its complement / uniform / finder look-alike rows and columns / stripes (24 targets x versions x levels: one candidate uniformly light or dark, penalties far above 65535, exact ties); each automatic build is run with the candidate recorder hook armed: the eight recorded candidates must be eight distinct masks over identical placed codewords (checked by un-masking with the ISO conditions) and must equal the forced-mask builds seen through the public API; an independent scan computes the documented penalty (40 per 1011101 window, N-2 per run >=5 inside the encoding region over rows and columns of the candidate, 3 per 2x2 block, 10 per 5% dark-ratio step; both readings of an exact 5% boundary accepted) and the emitted mask must be in the argmin; ties and order-equivalent ranking scores are not alarms; a miss is classified against the predicate of known finding KF-C11-1 (emitted mask in argmin when column terms are frozen at the un-masked placement); distinct key = (options, len, payload hash); every automatic build non-trivial",
     );
     rep.expected_sets = vec![("version_level", 160), ("emitted_masks", 8), ("dark_penalty_values", 10)];
     rep.required_sets = vec![("version_level", 160)];
